@@ -51,6 +51,9 @@ func rowCountMenu(r *simrt.Rand, thorough bool) int {
 				return r.Range(100000, 150000)
 			}
 		}
+		if r.Chance(1, 4) {
+			return []int{65535, 65536, 65537}[r.Intn(3)] // a roaring container boundary, also in the quick tier
+		}
 		return r.Range(200, 1500)
 	default:
 		return r.Range(2, 200)
